@@ -43,6 +43,12 @@ theorem C11_ladder_def (L i : ℕ) (create : Bool) (r c : Fin L → Bool) :
     (ladder L i true)ᴴ = ladder L i false :=
   ⟨rfl, by simp [createM], by simp [createM], by simp [createM], by simp [createM], ladder_conjTranspose L i⟩
 
+/-- flat indices: the reference ladder entry computed by the driver (`ladderEntry`, compared with `op.as_matrix()` of the single
+ladder operators on every run) at `(natOfBits r, natOfBits c)`, site 0 most significant, is the entry of `ladder` -/
+theorem C11_ladderEntry_flat (L i : ℕ) (create : Bool) (r c : Fin L → Bool) :
+    ((ladderEntry L i create (natOfBits L r) (natOfBits L c) : ℤ) : ℂ) = ladder L i create r c :=
+  ladderEntry_eq L i create r c
+
 /-- `½ (s₀ + s₁)` with the code's signs is the reference ladder matrix, for every `L`, every site and both kinds -/
 theorem C11_jw_ladder (L i : ℕ) (hi : i < L) (create : Bool) :
     (1 / 2 : ℂ) • ((ladderPair .jw L i create).1.mat L + (ladderPair .jw L i create).2.mat L) = ladder L i create :=
